@@ -1387,6 +1387,66 @@ export interface Outer { inner: { deep: { [kNest](): boolean }[] } }\n",
   )]
 }
 
+/// One package per syntax form in which a public declaration can mention another declaration. The
+/// mentioned declaration (`P`, `c`, `k`, `Base`, …) is private and referred to from nowhere else, so it
+/// is in the output only if that form is followed; the closure clause is then checked on the output.
+pub fn shape_worlds() -> Vec<(String, FcWorld)> {
+  let p = "interface P { a: number }\n";
+  let c = "const c: number = 1;\n";
+  let k = "const k: unique symbol = Symbol(\"k\");\n";
+  let forms: Vec<(&str, String)> = vec![
+    ("keyof", format!("{p}export type A = keyof P;\n")),
+    ("indexed access", format!("{p}export type A = P[\"a\"];\n")),
+    ("type parameter constraint and default", format!("{p}interface Q {{ a: number; b: string }}\nexport type A<T extends P = Q> = T;\n")),
+    ("mapped type", format!("{p}export type A = {{ [K in keyof P]: P[K] }};\n")),
+    ("mapped type with as clause", format!("{p}type N = \"x\";\nexport type A = {{ [K in keyof P as `${{N}}${{K & string}}`]: P[K] }};\n")),
+    ("conditional type", format!("{p}interface Q {{ b: string }}\nexport type A<T> = T extends P ? Q : never;\n")),
+    ("infer with constraint", format!("{p}export type A<T> = T extends [infer U extends P] ? U : never;\n")),
+    ("template literal type", "type S = \"a\" | \"b\";\nexport type A = `${S}-x`;\n".to_string()),
+    ("tuple with rest and names", format!("{p}interface Q {{ b: string }}\nexport type A = [first: P, ...rest: Q[]];\n")),
+    ("function type with assertion predicate", format!("{p}export type A = (x: unknown) => asserts x is P;\n")),
+    ("constructor type", format!("{p}interface Q {{ b: string }}\nexport type A = abstract new (x: P) => Q;\n")),
+    ("typeof of a private constant", format!("{c}export type A = typeof c;\n")),
+    ("typeof with member access", "const o: { inner: { v: number } } = { inner: { v: 1 } };\nexport type A = typeof o.inner.v;\n".to_string()),
+    ("readonly array and parenthesised union", format!("{p}interface Q {{ b: string }}\nexport type A = readonly (P | Q)[];\n")),
+    ("interface extends and index signature", format!("{p}interface Q {{ b: string }}\nexport interface A extends P {{ [key: string]: Q | number }}\n")),
+    ("call and construct signatures", format!("{p}interface Q {{ b: string }}\nexport interface A {{ (x: P): void; new (x: Q): A }}\n")),
+    ("class implements and this parameter", format!("{p}interface Q {{ b: string }}\nexport class A implements P {{ a: number = 1; m(this: A, x: Q): x is Q {{ return true; }} }}\n")),
+    ("abstract member and auto-accessor", format!("{p}interface Q {{ b: string }}\nexport abstract class A {{ abstract m(x: P): void; accessor v: Q | undefined = undefined; }}\n")),
+    ("class extends a private class with type arguments", format!("{p}class Base<T> {{ v: T | undefined = undefined; }}\nexport class A extends Base<P> {{}}\n")),
+    ("overload signatures", format!("{p}interface Q {{ b: string }}\ninterface Hidden {{ h: number }}\nexport function f(x: P): void;\nexport function f(x: Q): void;\nexport function f(x: P | Q | Hidden): void {{}}\n")),
+    ("generic function with constraint", format!("{p}export function f<T extends P>(x: T): T {{ return x; }}\n")),
+    ("optional and rest parameters", format!("{p}interface Q {{ b: string }}\nexport function f(x?: P, ...rest: Q[]): void {{}}\n")),
+    ("destructured parameter", format!("{p}export function f({{ a }}: P): void {{}}\n")),
+    ("variable with a private type", format!("{p}export const v: P = {{ a: 1 }};\n")),
+    ("computed class members", format!("{k}const k2: unique symbol = Symbol(\"k2\");\nexport class A {{ [k](): void {{}} [k2]: number = 1; }}\n")),
+    ("computed interface members", format!("{k}const k2: unique symbol = Symbol(\"k2\");\nexport interface A {{ [k](): void; [k2]: number }}\n")),
+    ("enum member type and namespace-qualified type", "enum E { X, Y }\nnamespace N { export interface I { v: E.X } }\nexport type A = N.I | E.Y;\n".to_string()),
+    ("import type of an own module", format!("export type A = import(\"./other.ts\").O;\n")),
+    ("default-exported class with heritage", format!("{p}class Base {{ b: number = 1; }}\nexport default class extends Base implements P {{ a: number = 1; }}\n")),
+    ("export assignment of a private function", format!("{p}function inner(x: P): void {{}}\nexport default inner;\n")),
+    ("getter and setter pair", format!("{p}interface Q {{ b: string }}\nexport class A {{ get v(): P {{ return {{ a: 1 }}; }} set v(x: P) {{}} static get s(): Q {{ return {{ b: \"\" }}; }} }}\n")),
+    ("satisfies and as const initialisers with annotation", format!("{p}export const v: P = {{ a: 1 }} satisfies P;\n")),
+  ];
+  forms
+    .into_iter()
+    .map(|(name, text)| {
+      (
+        name.to_string(),
+        FcWorld {
+          main: "import * as a from \"jsr:@s/a@1\";\n".into(),
+          pkgs: vec![FcPackage {
+            name: "@s/a".into(),
+            version: "1.0.0".into(),
+            exports: [(".".to_string(), "./mod.ts".to_string())].into_iter().collect(),
+            files: vec![("/mod.ts".to_string(), text), ("/other.ts".to_string(), "export interface O { o: number }\nexport interface Unused { u: number }\n".to_string())],
+          }],
+        },
+      )
+    })
+    .collect()
+}
+
 /// do the `export * from "./x"` declarations of the world's sources form a cycle?
 fn star_cycle_in_sources(w: &FcWorld) -> bool {
   let mut edges: BTreeMap<String, Vec<String>> = BTreeMap::new();
@@ -1461,6 +1521,14 @@ pub fn run_c09(tier: &str, seed: u64) -> Report {
   for (name, w) in regression_worlds() {
     let r = run_fast_check(&w, None, false);
     all.push((w, r, json!({"regression": name}), None));
+  }
+  // shape corpus: one syntax form per package, each naming a private declaration nothing else
+  // refers to (the generators cover a fraction of the type syntax; these are the rest, by hand)
+  for (name, w) in shape_worlds() {
+    let r = run_fast_check(&w, None, false);
+    let emitted = r.slots.values().any(|s| matches!(s, FcSlot::Module { .. }));
+    report.count(if emitted { "shape-corpus:emitted" } else { "shape-corpus:diagnostic-or-none" });
+    all.push((w, r, json!({"shape": name}), None));
   }
   report.exhaustive.push(format!("closure / specifier / source-map checks on the output of all {} fast-check spec packages", files.len()));
   for (w, run, replay, pkg) in &all {
